@@ -73,6 +73,7 @@ ArgList(args, kwn, kwv) ==
 
 ConstTok(v) ==
     CASE v.t = "int" -> <<"#int:" \o ToString(v.n)>>
+      [] v.t = "float" -> <<"#float:" \o ToString(v.n) \o "/" \o ToString(v.e)>>     \* n / 2^e
       [] v.t = "bool" -> <<IF v.b THEN "true" ELSE "false">>
       [] v.t = "none" -> <<"none">>
       [] v.t = "str" -> <<"#str:" \o (IF v.s = <<>> THEN "" ELSE v.s[1].a)>>
